@@ -33,6 +33,14 @@
 //! pool for the sequential algorithms – equal the result of a fresh value on a fresh array
 //! (`history-dependent@<algo>` otherwise).
 //!
+//! `wscale <s> <op>` / `cscale <s> <op>` (scale cases): the op is run as written AND with all
+//! weights (`wscale`; the op carries `f` weights) or all coordinates (`cscale`) multiplied by `s`
+//! (`2^k`, a decimal literal such as `1e-18` or the subnormal `5e-324`, or `1e300/total` =
+//! 1e300 divided by the sum of the weights). Both runs must pass the oracle; for a power of two the
+//! scaled run must give the same ids as the unscaled one where the run is deterministic
+//! (`scale-dependent@<algo>` otherwise: 1-thread pool, Greedy and Grid on any pool; for `cscale`
+//! only Rcb and MultiJagged, whose code merely compares and halves coordinates).
+//!
 //! The op above is the whole INPUT (public API only; this is what the corpus holds). The line
 //! RECORDED for the model driver is `<op> => <aux…>` for the three algorithms whose models take
 //! the result of floating-point code as a parameter; `aux` is read from the implementation
@@ -121,7 +129,9 @@ impl Wts {
         match self {
             Wts::I(v) => v.iter().all(|&w| w >= 0) && (v.is_empty() || v.iter().any(|&w| w > 0)),
             Wts::F(v) => {
-                v.iter().all(|&w| w.is_finite() && w >= 0.0) && (v.is_empty() || v.iter().any(|&w| w > 0.0))
+                v.iter().all(|&w| w.is_finite() && w >= 0.0)
+                    && (v.is_empty() || v.iter().any(|&w| w > 0.0))
+                    && v.iter().sum::<f64>().is_finite()
             }
         }
     }
@@ -222,6 +232,42 @@ impl Case {
             Case::Random { .. } => {}
         }
         c
+    }
+
+    /// Sum of the `f64` weights (`None`: the case has no `f64` weights).
+    fn f_total(&self) -> Option<f64> {
+        match self {
+            Case::Bisect { w: Wts::F(w), .. } | Case::Greedy { w: Wts::F(w), .. } | Case::Grid { w: Wts::F(w), .. } => {
+                Some(w.iter().sum())
+            }
+            Case::Hilbert { w, .. } | Case::Mj { w, .. } => Some(w.iter().sum()),
+            _ => None,
+        }
+    }
+
+    /// All `f64` weights multiplied by `s` (`None`: the case has no `f64` weights).
+    fn scale_weights(&self, s: f64) -> Option<Case> {
+        let mut c = self.clone();
+        match &mut c {
+            Case::Bisect { w: Wts::F(w), .. } | Case::Greedy { w: Wts::F(w), .. } | Case::Grid { w: Wts::F(w), .. } => {
+                w.iter_mut().for_each(|x| *x *= s)
+            }
+            Case::Hilbert { w, .. } | Case::Mj { w, .. } => w.iter_mut().for_each(|x| *x *= s),
+            _ => return None,
+        }
+        Some(c)
+    }
+
+    /// All coordinates multiplied by `s` (`None`: the case has no coordinates).
+    fn scale_coords(&self, s: f64) -> Option<Case> {
+        let mut c = self.clone();
+        match &mut c {
+            Case::Bisect { pts, .. } | Case::Hilbert { pts, .. } | Case::ZCurve { pts, .. } | Case::Mj { pts, .. } => {
+                pts.iter_mut().for_each(|x| *x *= s)
+            }
+            _ => return None,
+        }
+        Some(c)
     }
 
     /// A run on the same elements that asks for more parts (its ids fill the array that
@@ -847,6 +893,31 @@ enum Reuse {
     No,
     Twice,
     Buf,
+    /// weights × s (`pow2`: s is a power of two)
+    WScale { pow2: bool },
+    /// coordinates × s
+    CScale { pow2: bool },
+}
+
+/// `2^k` | `1e300/total` | a decimal literal → (factor, is a power of two)
+fn parse_scale(spec: &str, case: &Case) -> Option<(f64, bool)> {
+    if let Some(k) = spec.strip_prefix("2^") {
+        let k: i32 = k.parse().ok()?;
+        if k.abs() > 1000 {
+            return None;
+        }
+        return Some((2f64.powi(k), true));
+    }
+    if spec == "1e300/total" {
+        let t = case.f_total()?;
+        return if t > 0.0 && t.is_finite() { Some((1e300 / t, false)) } else { None };
+    }
+    let v: f64 = spec.parse().ok()?;
+    if v.is_finite() && v > 0.0 {
+        Some((v, false))
+    } else {
+        None
+    }
 }
 
 /// One run under a `t`-thread pool and the watchdog.
@@ -859,10 +930,16 @@ pub fn run_op(ctx: &mut Ctx, op: &str) {
     if ctx.hang_limit_reached() {
         return;
     }
-    let (reuse, inner) = if let Some(r) = op.strip_prefix("reuse-twice ") {
+    let mut scale_spec: Option<(&str, bool)> = None; // (spec, weights?)
+    let (mut reuse, inner) = if let Some(r) = op.strip_prefix("reuse-twice ") {
         (Reuse::Twice, r)
     } else if let Some(r) = op.strip_prefix("reuse-buf ") {
         (Reuse::Buf, r)
+    } else if let Some(r) = op.strip_prefix("wscale ").or_else(|| op.strip_prefix("cscale ")) {
+        let mut it = r.splitn(2, ' ');
+        let spec = it.next().unwrap_or("");
+        scale_spec = Some((spec, op.starts_with("wscale ")));
+        (Reuse::No, it.next().unwrap_or(""))
     } else {
         (Reuse::No, op)
     };
@@ -870,6 +947,31 @@ pub fn run_op(ctx: &mut Ctx, op: &str) {
         ctx.record(op.to_string(), "bad-op".into(), false);
         return;
     };
+    // the scaled twin of a scale case
+    let mut scaled: Option<Case> = None;
+    if let Some((spec, weights)) = scale_spec {
+        let twin = parse_scale(spec, &case).and_then(|(f, pow2)| {
+            if weights {
+                case.scale_weights(f).map(|c| (c, Reuse::WScale { pow2 }))
+            } else {
+                case.scale_coords(f).map(|c| (c, Reuse::CScale { pow2 }))
+            }
+        });
+        match twin {
+            Some((c, r)) => {
+                scaled = Some(c);
+                reuse = r;
+            }
+            None => {
+                ctx.record(op.to_string(), "bad-op".into(), false);
+                return;
+            }
+        }
+    }
+    let ooc_scaled = scaled.as_ref().and_then(|c| c.out_of_contract(m));
+    if scaled.is_some() && ooc_scaled.is_some() {
+        ctx.count("scale_twin_outside_contract");
+    }
     let algo = case.algo();
     let ooc = case.out_of_contract(m);
     let n = case.n();
@@ -891,6 +993,10 @@ pub fn run_op(ctx: &mut Ctx, op: &str) {
             // the history run: same value twice / reused array
             let second = match reuse {
                 Reuse::Twice => Some(exec(&case, t, vec![usize::MAX; m], true)),
+                Reuse::WScale { .. } | Reuse::CScale { .. } => match (&scaled, ooc_scaled) {
+                    (Some(c), None) => Some(exec(c, t, vec![usize::MAX; m], false)),
+                    _ => None,
+                },
                 _ => {
                     let pre_case = case.more_parts();
                     match exec(&pre_case, t, vec![usize::MAX; m], false) {
@@ -906,27 +1012,39 @@ pub fn run_op(ctx: &mut Ctx, op: &str) {
                 let (v2, f2) = verdict(&case, &algo, t, m, ooc, &second);
                 if f2.is_some() {
                     v = format!("{} [{:?}]", v2, reuse);
-                    f = f2.map(|(sig, what)| (sig, format!("{} [history run {:?}]", what, reuse)));
+                    f = f2.map(|(sig, what)| (sig, format!("{} [second run {:?} of {}]", what, reuse, op.split(" 1,").next().unwrap_or("").chars().take(40).collect::<String>())));
                 } else if let (Caught::Ok((r1, ids1)), Caught::Ok((r2, ids2))) = (&fresh, &second) {
                     // same input ⇒ same output: compared where the run is deterministic (1-thread
                     // pool; sequential algorithms on any pool; not the second draw of one rng)
                     let sequential =
                         matches!(case, Case::Greedy { .. } | Case::Kk { .. } | Case::Ckk { .. } | Case::Random { .. });
-                    let comparable =
-                        (t == 1 || sequential) && !(reuse == Reuse::Twice && matches!(case, Case::Random { .. }));
+                    let (comparable, word) = match reuse {
+                        Reuse::Twice => ((t == 1 || sequential) && !matches!(case, Case::Random { .. }), "history"),
+                        Reuse::Buf => (t == 1 || sequential, "history"),
+                        // exact only for a power of two; Grid's result depends on the pool size but
+                        // not on the schedule
+                        Reuse::WScale { pow2 } => {
+                            (pow2 && (t == 1 || sequential || matches!(case, Case::Grid { .. })), "scale")
+                        }
+                        Reuse::CScale { pow2 } => (
+                            pow2 && t == 1 && matches!(case, Case::Bisect { rib: false, .. } | Case::Mj { .. }),
+                            "scale",
+                        ),
+                        Reuse::No => (false, ""),
+                    };
                     if comparable && *r1 == Ret::Ok && *r2 == Ret::Ok {
-                        ctx.count("reuse_compared");
+                        ctx.count(if word == "scale" { "scale_compared" } else { "reuse_compared" });
                         if let Some(i) = (0..m).find(|&i| ids1[i] != ids2[i]) {
-                            v = format!("history-dependent {:?}", reuse);
+                            v = format!("{}-dependent {:?}", word, reuse);
                             f = Some((
-                                format!("history-dependent@{}", algo),
+                                format!("{}-dependent@{}", word, algo),
                                 format!(
-                                    "element {}: id {} from a fresh value and array, id {} in the {:?} run (T={})",
+                                    "element {}: id {} in the plain run, id {} in the {:?} run (T={})",
                                     i, ids1[i], ids2[i], reuse, t
                                 ),
                             ));
                         }
-                    } else if r1 != r2 {
+                    } else if r1 != r2 && word == "history" {
                         v = format!("history-dependent {:?}", reuse);
                         f = Some((
                             format!("history-dependent@{}", algo),
@@ -970,8 +1088,11 @@ pub fn run_op(ctx: &mut Ctx, op: &str) {
     }
     let nontrivial = ooc.is_none() && n >= 2 && parts >= 2;
     let mut line = public_part(op).to_string();
-    if reuse != Reuse::No {
-        ctx.count("reuse");
+    match reuse {
+        Reuse::Twice | Reuse::Buf => ctx.count("reuse"),
+        Reuse::WScale { .. } => ctx.count("wscale"),
+        Reuse::CScale { .. } => ctx.count("cscale"),
+        Reuse::No => {}
     }
     if ooc.is_none() && n > 0 && n <= MODEL_MAX_N {
         let needs = matches!(case, Case::Bisect { rib: true, .. } | Case::Hilbert { .. } | Case::ZCurve { .. });
@@ -1532,6 +1653,62 @@ fn corner_stream(ctx: &mut Ctx, ts: &[usize]) {
     }
 }
 
+const W_SCALES: [&str; 11] =
+    ["1e-300", "1e-30", "1e-18", "1e-10", "1e10", "1e30", "1e300/total", "2^-60", "2^60", "5e-324", "1e-310"];
+/// for the algorithms that read coordinates as `f64`; the points of these cases stay within ±1000,
+/// so the squares the bounding-box inertia sums stay finite (they overflow above about 1e153)
+const C_SCALES_F64: [&str; 8] = ["1e-300", "1e-150", "1e-30", "1e30", "1e100", "1e140", "2^-40", "2^40"];
+/// Rcb / Rib convert to `f32`: scaled coordinates must stay finite there
+const C_SCALES_F32: [&str; 6] = ["1e-300", "1e-150", "1e-30", "1e20", "2^-40", "2^40"];
+
+fn force_f(case: &mut Case) {
+    match case {
+        Case::Bisect { w, .. } | Case::Greedy { w, .. } | Case::Grid { w, .. } => {
+            if let Wts::I(v) = w {
+                *w = Wts::F(as_f(v));
+            }
+        }
+        _ => {}
+    }
+}
+
+/// SCALE stream: the unit of the weights / of the coordinates must not matter. Every algorithm
+/// taking `f64` weights at every weight scale (incl. subnormal weights), every geometric algorithm
+/// at every coordinate scale; see the module doc for what is compared.
+fn scale_stream(ctx: &mut Ctx, ts: &[usize]) {
+    for _ in 0..ctx.budget(1, 6) {
+        for which in [0usize, 1, 2, 4, 5, 8] {
+            for spec in W_SCALES {
+                // N6 hung on about a quarter of 100-point inputs with 5 parts: sizes around that
+                let n = if ctx.rng.chance(1, 2) { 60 + ctx.rng.usize(80) } else { gen_n(&mut ctx.rng, 300) };
+                let mut case = random_case(ctx, which, n, false);
+                force_f(&mut case);
+                ctx.count(&format!("wscale:{}", spec));
+                let op = format!("wscale {} {}", spec, case.format(ts, None));
+                run_op(ctx, &op);
+            }
+        }
+        for which in [0usize, 1, 2, 3, 4] {
+            let specs: &[&str] = if which <= 1 { &C_SCALES_F32 } else { &C_SCALES_F64 };
+            for spec in specs {
+                let n = gen_n(&mut ctx.rng, 300);
+                let mut case = random_case(ctx, which, n, false);
+                let pm = *ctx.rng.pick(&["uniform", "duplicates", "coincident", "collinear", "lattice"]);
+                match &mut case {
+                    Case::Bisect { dim, pts, .. }
+                    | Case::Hilbert { dim, pts, .. }
+                    | Case::ZCurve { dim, pts, .. }
+                    | Case::Mj { dim, pts, .. } => *pts = gen_points(&mut ctx.rng, *dim, n, pm),
+                    _ => {}
+                }
+                ctx.count(&format!("cscale:{}", spec));
+                let op = format!("cscale {} {}", spec, case.format(ts, None));
+                run_op(ctx, &op);
+            }
+        }
+    }
+}
+
 /// REUSE stream: the same algorithm value called twice, and an id array reused after a run with
 /// more parts (see the module doc).
 fn reuse_stream(ctx: &mut Ctx) {
@@ -1676,6 +1853,7 @@ pub fn generate(ctx: &mut Ctx) {
     let corner_ts: Vec<usize> = vec![1, 2, 3, 16];
     corner_stream(ctx, &corner_ts);
     reuse_stream(ctx);
+    scale_stream(ctx, &corner_ts);
 
     // 4. malformed stream (outside the contract; nothing claimed, but the refusal is recorded and
     //    compared): array length ≠ element count, curve orders above the maximum
